@@ -188,7 +188,15 @@ impl Scenario for Diag {
                 last_valid.insert(f.clone(), text.clone());
             }
             cur.insert(f.clone(), text.clone());
-            let kind = if opened.insert(f.clone()) { "open" } else { "change" };
+            // a document that is open is sometimes closed and opened again at once (didClose, then didOpen with the next
+            // text): its version numbers start again at 1, as every editor's do
+            let kind = if opened.insert(f.clone()) {
+                "open"
+            } else if rng.chance(150) {
+                "reopen"
+            } else {
+                "change"
+            };
             ops.push(DOp { kind: kind.into(), file: f, text });
         }
         let mut sim = SimParams::gen(&mut rng, 4000);
@@ -234,6 +242,7 @@ impl Scenario for Diag {
         out.count("probe.expected_diagnostics_nonempty", res.nonempty);
         out.count("probe.disabled_code_filtered_something", res.filtered);
         out.count("probe.cleared_on_next_change", res.cleared);
+        out.count("probe.closed_and_reopened_with_versions_restarting", res.reopens);
         for (c, d) in res.violations {
             out.violate(&c, d);
         }
@@ -254,6 +263,7 @@ struct Res {
     nonempty: u64,
     filtered: u64,
     cleared: u64,
+    reopens: u64,
     harness: Option<String>,
 }
 
@@ -310,13 +320,23 @@ fn drive(root: &Path, inp: &DiagInput) -> Res {
         let r = rel(root, e.key());
         texts.insert(r, e.value().as_ref().clone());
     }
-    let mut version = 1;
+    // document versions are per document and per open-lifetime: 1 at didOpen, +1 with every didChange
+    let mut versions: BTreeMap<String, i64> = BTreeMap::new();
     for (k, op) in inp.ops.iter().enumerate() {
         let uri = srv.uri(&op.file);
+        if op.kind == "reopen" {
+            srv.did_close(&op.file);
+            if !srv.settle(3, 4000) {
+                res.violations.push(("diag-server-failure".into(), format!("server not quiescent after the didClose of op {} ({}); panic={:?}", k, op.file, srv.server_panic)));
+                return res;
+            }
+            res.reopens += 1;
+        }
         let before = srv.diagnostics.get(&uri).map(|d| d.1).unwrap_or(0);
         let prev_nonempty = srv.diagnostics.get(&uri).map(|d| d.0.as_array().map(|a| !a.is_empty()).unwrap_or(false)).unwrap_or(false);
-        version += 1;
-        let msg = if op.kind == "open" {
+        let version = if op.kind == "change" { versions.get(&op.file).copied().unwrap_or(1) + 1 } else { 1 };
+        versions.insert(op.file.clone(), version);
+        let msg = if op.kind != "change" {
             json!({"jsonrpc": "2.0", "method": "textDocument/didOpen", "params": {"textDocument": {"uri": uri, "languageId": "python", "version": version, "text": op.text}}})
         } else {
             json!({"jsonrpc": "2.0", "method": "textDocument/didChange", "params": {"textDocument": {"uri": uri, "version": version}, "contentChanges": super::lspdrv::content_changes(&op.text)}})
